@@ -13,10 +13,11 @@ func init() {
 func runC03(opt *Options) int {
 	lr := &laRun{
 		Opt:  opt,
-		Pkgs: []string{"generator", "xtype", "builder"},
+		Pkgs: []string{"generator", "xtype", "builder", "enum"},
 		Kernels: []layera.Kernel{
 			{Name: "K1.dispatch", Pkg: "generator", Harness: "VerifHarness_C03_Dispatch", Unwind: 800, MaxPaths: 3000000, Workers: 16},
 			{Name: "K5.findfield", Pkg: "xtype", Harness: "VerifHarness_C03_FindField", Unwind: 24, MaxPaths: 6000000, Workers: 16, SetInts: map[string]int{"VerifC03HistoryFields": map[bool]int{false: 0, true: 2}[opt.Thorough()]}},
+			{Name: "K1.enumdetect", Pkg: "enum", Harness: "VerifHarness_C03_EnumDetect", Unwind: 32},
 			{Name: "K5.accessible", Pkg: "xtype", Harness: "VerifHarness_C03_Accessible", Unwind: 16},
 			{Name: "K5.structassign", Pkg: "builder", Harness: "VerifHarness_C05_StructAssign", Unwind: 32, MaxPaths: 3000000, Workers: 16},
 		},
